@@ -422,6 +422,8 @@ func c01Directed(run *ev.Run, st *cmpStats) {
 	// symlinked sources
 	realDir := mkdir("realdir", 0o750)
 	realDoc := mkfile("realdoc.md", "doc\n", 0o640)
+	inner := mkfile("realdir/inner.conf", "inner\n", 0o640)
+	_ = os.Chmod(abs(realDir), 0o750)
 	_ = os.Symlink(abs(realDir), filepath.Join(root, "linkdir"))
 	_ = os.Symlink(abs(realDoc), filepath.Join(root, "linkdoc.md"))
 	stamp := func() {
@@ -470,6 +472,10 @@ func c01Directed(run *ev.Run, st *cmpStats) {
 		{"sources-behind-symbolic-links", []*gen.Content{
 			{Type: "dir", Src: filepath.Join(root, "linkdir"), Dst: "/var/lib/d/linked", Exp: []gen.Expect{{Dst: "/var/lib/d/linked", Kind: "dir", Node: realDir}}},
 			{Type: "doc", Src: linkDoc, Dst: "/usr/share/doc/d/README.md", Exp: []gen.Expect{{Dst: "/usr/share/doc/d/README.md", Kind: "file", Src: abs(realDoc), Node: realDoc}}},
+			// a DIRECTORY component of the source path is a symbolic link (a linked
+			// workspace): the file itself is an ordinary file
+			{Type: "config", Src: filepath.Join(root, "linkdir", "inner.conf"), Dst: "/etc/d/inner.conf", Exp: []gen.Expect{{Dst: "/etc/d/inner.conf", Kind: "file", Src: abs(inner), Node: inner}}},
+			{Src: filepath.Join(root, "linkdir") + "/*.conf", Dst: "/opt/d/globbed", Exp: []gen.Expect{{Dst: "/opt/d/globbed/inner.conf", Kind: "file", Src: filepath.Join(root, "linkdir", "inner.conf"), Node: inner}}},
 			{Type: "license", Src: linkDoc, Dst: "/usr/share/doc/d/LICENSE", Exp: []gen.Expect{{Dst: "/usr/share/doc/d/LICENSE", Kind: "file", Src: abs(realDoc), Node: realDoc}}},
 		}},
 	}
